@@ -29,7 +29,7 @@ func (c13) Info(t core.Tier) core.Info {
 	}
 }
 
-func (c13) NumCases(t core.Tier) int { return tierN(t, 2500, 150000) }
+func (c13) NumCases(t core.Tier) int { return tierN(t, 25000, 600000) }
 
 func quad(cs []obs.CI) []string {
 	out := make([]string, len(cs))
